@@ -6,6 +6,7 @@ import itertools
 from geneticengine.algorithms.gp.gp import GeneticProgramming
 from geneticengine.algorithms.gp.operators.combinators import ParallelStep, SequenceStep
 from geneticengine.algorithms.gp.operators.elitism import ElitismStep
+from geneticengine.algorithms.gp.operators.crossover import GenericCrossoverStep
 from geneticengine.algorithms.gp.operators.mutation import GenericMutationStep
 from geneticengine.algorithms.gp.operators.novelty import NoveltyStep
 from geneticengine.algorithms.hill_climbing import HC
@@ -117,7 +118,14 @@ def _search(ctx, cfg, tape, perm, reuse=None):
     elif alg == "1p1":
         s = OnePlusOne(problem, budget, rep, r)
     else:
-        step = ParallelStep([ElitismStep(), NoveltyStep(), GenericMutationStep(1)], weights=[1, 0, 1]) if cfg.get("step") == "mixed" else GenericMutationStep(1)
+        if cfg.get("step") == "mixed":
+            step = ParallelStep([ElitismStep(), NoveltyStep(), GenericMutationStep(1)], weights=[1, 0, 1])
+        elif cfg.get("step") == "crossover":
+            step = GenericCrossoverStep(1)
+        elif cfg.get("step") == "crossover_mutation":
+            step = SequenceStep(GenericCrossoverStep(1), GenericMutationStep(1))
+        else:
+            step = GenericMutationStep(1)
         s = GeneticProgramming(problem, budget, rep, r, population_size=2, step=step)
     try:
         best = s.search()
@@ -149,7 +157,51 @@ def h_reproducible(ctx: Ctx, cfg):
         ctx.require(best1.get_fitness(p1).fitness_components == best2.get_fitness(p2).fitness_components, "repro:returned-fitness-differs")
 
 
-HARNESSES = {"reproducible": h_reproducible}
+def _operators(ctx, cfg, tape, perm):
+    """the variation operators on their own: create two genotypes, cross them over, mutate a child"""
+    fx = synth.fixture(cfg.get("fixture", "fh"))
+    fx.set_hashes(perm)
+    g = ctx.concrete(fx.grammar)
+    r = TapeRandom(ctx, tape)
+    rep = synth.make_rep(cfg, g, r)
+    if cfg["rep"] == "stack":
+        real_map = rep.genotype_to_phenotype
+        rep.genotype_to_phenotype = lambda geno: real_map(synth.fuel_genes(ctx, dict(cfg, gene_fuel=cfg.get("gene_fuel", 8)), geno))
+    out = []
+    try:
+        a = rep.create_genotype(r)
+        if cfg.get("map_only"):  # one genotype, mapped: the mapper's own order dependence
+            return [rep.genotype_to_phenotype(a)], None
+        b = rep.create_genotype(r)
+        out += [rep.genotype_to_phenotype(a), rep.genotype_to_phenotype(b)]
+        c1, c2 = rep.crossover(r, a, b)
+        out += [rep.genotype_to_phenotype(c1), rep.genotype_to_phenotype(c2)]
+        if cfg.get("mutate", False):
+            out.append(rep.genotype_to_phenotype(rep.mutate(r, c1)))
+        return out, None
+    except synth.LIBRARY_ERRORS as e:
+        return out, type(e).__name__
+
+
+def h_operators_reproducible(ctx: Ctx, cfg):
+    tape = Tape()
+    fx = synth.fixture(cfg.get("fixture", "fh"))
+    if hasattr(fx, "IDENTITY"):
+        ident, choices = fx.IDENTITY, (fx.ALL_PERMS if cfg.get("all_perms") else fx.QUICK_PERMS[: cfg.get("n_perms", 99)])
+    else:
+        ident, choices = PERMS[0], (PERMS if cfg.get("all_perms") else ([PERMS[23]] if cfg.get("one_perm") else QUICK_PERMS))
+    perm2 = ctx.pick(choices, "hash_order")
+    out1, err1 = _operators(ctx, cfg, tape, ident)
+    out2, err2 = _operators(ctx, cfg, tape, perm2)
+    ctx.reached()
+    ctx.note("hash_order", list(perm2))
+    ctx.require(err1 == err2 and len(out1) == len(out2), "repro:one-run-fails-the-other-does-not", lambda: {"first": err1, "second": err2, "n1": len(out1), "n2": len(out2)})
+    names = ["first created", "second created", "first child", "second child", "mutated child"]
+    for j, (a, b) in enumerate(zip(out1, out2)):
+        ctx.require(_same_program(a, b), "repro:operator-results-differ", lambda: {"which": names[j], "first": OT.show(a), "second": OT.show(b), "hash_order": list(perm2)})
+
+
+HARNESSES = {"reproducible": h_reproducible, "operators_reproducible": h_operators_reproducible}
 
 
 def obligations(tier: str):
@@ -180,6 +232,20 @@ def obligations(tier: str):
     for rn in ("ge",) + (("sge",) if T else ()):
         rc = dict(reps[rn], fixture="f3f", concrete_draws=True, gene_length=2 if rn == "ge" else 1, max_depth=1)
         add(f"rs_{rn}_float_same_process", alg="rs", budget=3, mode="same_process", **rc)
+    # crossover between two individuals (the children are what the second generation evaluates)
+    for rn in reps:
+        rc = dict(reps[rn])
+        if rn == "sge" and not T:
+            continue  # one mask bit per key of the genotype (7): 128 masks per pair of shapes; thorough tier only
+        if rn in ("dsge", "stack"):  # containers keyed by non-terminal: two abstract symbols
+            rc["fixture"] = "fh2"
+        elif not T:
+            rc["one_perm"] = True  # the reversed order only
+        if rn == "stack":
+            rc.update(map_only=True, gene_length=3, gene_fuel=8 if T else 7, n_perms=2)
+        obs.append(Ob("operators_reproducible", dict(rc, fuel=300, all_perms=T), name=f"operators_{rn}_other_process", timeout=300 * (8 if T else 1), path_timeout=60, smoke=4))
+        if T:
+            add(f"gpx_{rn}_other_process", alg="gp", step="crossover", budget=4, mode="other_process", **dict(rc, all_perms=False))
     if T:
         add("gp_mixed_step_tree_other_process", alg="gp", step="mixed", budget=3, mode="other_process", **reps["tree"])
     return obs
